@@ -72,3 +72,74 @@ Theorem C04_iter_clone_prefix_refuted :
     let '(_, e) := iter_clone_buggy cl (Some k) s in
     releases e <> clones_of cl 0 (firstn k (live s)).
 Proof. exact iter_clone_buggy_refuted. Qed.
+
+(* ---- tier T3: the BODIES of map / fold / inverted_zip / inverted_zip2 / generate (src/lib.rs) and
+   of the boxed generate (src/impl_alloc.rs) as tools/ga2coq regenerates them on every run
+   (coq/gen/GenPipe.v: sources iterated in lockstep, the closure statement by statement, the sink),
+   executed by the position-tracking interpreter of Pipe.v -- ArrayConsumer drops position..,
+   the builder drops ..position, the closure drops what it still holds when the caller's
+   function panics -- give the list-level meaning the theorems above are about ... ---- *)
+From Coq Require Import String.
+From GA Require Import Pipe PipeTie.
+From GAGen Require Import GenPipe.
+Import Coq.Lists.List.
+
+Theorem C04_source_map : forall f g pan a so nd,
+  flat5 (run_from_iter [a] so f g pan (pipe_of gen_map nd) (length a)) = map_ true f pan a.
+Proof. exact tie_map. Qed.
+
+Theorem C04_source_zip : forall f g pan a b so nd, length a = length b ->
+  nd_eval nd (NdOr (NdArg 0) (NdArg 1)) = true ->
+  agrees (run_from_iter [b; a] so f g pan (pipe_of gen_inverted_zip nd) (length a))
+         (zip_ true true f pan a b).
+Proof. exact tie_zip. Qed.
+
+Theorem C04_source_zip2 : forall f g pan a b so nd, length a = length b -> nd_eval nd (NdArg 0) = true ->
+  agrees (run_from_iter [b; a] so f g pan (pipe_of gen_inverted_zip2 nd) (length a))
+         (zip_ so true f pan a b).
+Proof. exact tie_zip2. Qed.
+
+(* the branches taken when no element type has drop glue: same calls, same result; this
+   function itself drops nothing of `self` *)
+Theorem C04_source_zip_nodrop : forall f g pan a b so nd, length a = length b ->
+  nd_eval nd (NdOr (NdArg 0) (NdArg 1)) = false ->
+  let '(o, m, t, e, c) := run_from_iter [b; a] so f g pan (pipe_of gen_inverted_zip nd) (length a) in
+  t = [] /\ exists t', zip_ true true f pan a b = (o, (m ++ t' ++ e)%list, c).
+Proof. exact tie_zip_nodrop. Qed.
+
+Theorem C04_source_zip2_nodrop : forall f g pan a b so nd, length a = length b -> nd_eval nd (NdArg 0) = false ->
+  let '(o, m, t, e, c) := run_from_iter [b; a] so f g pan (pipe_of gen_inverted_zip2 nd) (length a) in
+  t = (if so then map EDrop (skipn (length c) a) else []) /\
+  exists t', zip_ so true f pan a b = (o, (m ++ t' ++ e)%list, c).
+Proof. exact tie_zip2_nodrop. Qed.
+
+Theorem C04_source_fold : forall f g pan a so nd init,
+  let '(o, m, t, c) := run_fold [a] so f g pan (pipe_of gen_fold nd) (length a) init in
+  (o, (m ++ t)%list, List.concat c) = fold_ true g pan init a.
+Proof. exact tie_fold. Qed.
+
+Theorem C04_source_generate : forall f g pan so nd N,
+  flat5 (run_for_each [] so f g pan (pipe_of gen_generate nd) N) = generate_ N f pan /\
+  flat5 (run_for_each [] so f g pan (pipe_of gen_boxed_generate nd) N) = generate_ N f pan.
+Proof. exact src_generate_spec. Qed.
+
+(* ... so, of the regenerated bodies themselves: whatever call of the caller's function panics,
+   every element of every owned input and every value already produced is released exactly
+   once or is in the returned array *)
+Theorem C04_source_map_accounted : forall f g pan a so nd,
+  let '(o, m, t, e, c) := run_from_iter [a] so f g pan (pipe_of gen_map nd) (length a) in
+  Permutation (a ++ produced f 0 (firstn (completed pan (length a)) (map (fun x => [x]) a)))%list
+              (releases (m ++ t ++ e) ++ match o with Ok r => r | _ => [] end)%list.
+Proof. exact src_map_accounted. Qed.
+
+Theorem C04_source_zip_accounted : forall f g pan a b so nd, length a = length b ->
+  nd_eval nd (NdOr (NdArg 0) (NdArg 1)) = true ->
+  let '(o, m, t, e, c) := run_from_iter [b; a] so f g pan (pipe_of gen_inverted_zip nd) (length a) in
+  Permutation (a ++ b ++ produced f 0 (firstn (completed pan (length a)) (zrows a b)))%list
+              (releases (m ++ t ++ e) ++ match o with Ok r => r | _ => [] end)%list.
+Proof. exact src_zip_accounted. Qed.
+
+Theorem C04_source_fold_accounted : forall f g pan a so nd init,
+  let '(o, m, t, c) := run_fold [a] so f g pan (pipe_of gen_fold nd) (length a) init in
+  releases (m ++ t) = a.
+Proof. exact src_fold_accounted. Qed.
